@@ -769,6 +769,72 @@ def rule_cache_clock(ctx) -> None:
     ctx.floor("C01.CLOCK", "episode-container writes checked for a version increment", n_w, 2)
 
 
+CLOCK_PARSE_MODULES = ["clematis.memory.index", "clematis.memory.lance_index", "clematis.engine.stages.t2.helpers", "clematis.engine.stages.t2.core"]
+
+
+def rule_clock_fallback(ctx) -> None:
+    """a logical clock that is GIVEN must decide every time-dependent result: the helpers that parse timestamps fall back to
+    datetime.now() when the text cannot be read and no default is passed.  (a) Every call of such a helper passes the default -
+    for an episode's timestamp the query's reference time, for the clock itself a fixed instant; (b) where the clock is parsed
+    inside a try, the handler does not reset the value to None in front of an `is None -> datetime.now()` fill-in."""
+    parsers = {}
+    for mn in CLOCK_PARSE_MODULES:
+        if mn not in ctx.prog.modules:
+            continue
+        for fn in ctx.prog.module(mn).funcs.values():
+            # `return default if default is not None else <wall clock>` (or a bare wall clock) inside an except handler
+            for h in [x for x in walk_no_defs(fn.node) if isinstance(x, ast.ExceptHandler)]:
+                for r in [y for st in h.body for y in ast.walk(st) if isinstance(y, ast.Return) and y.value is not None]:
+                    if any(_is_clock(z) for z in ast.walk(r.value)):
+                        dflt = next((p for p in fn.params if any(isinstance(z, ast.Name) and z.id == p for z in ast.walk(r.value))), None)
+                        parsers[fn.qual] = (fn, dflt)
+    ctx.floor("C01.CLOCK", "timestamp parsers with a wall-clock fallback", len(parsers), 2)
+    n_calls = 0
+    for mn in CLOCK_PARSE_MODULES:
+        if mn not in ctx.prog.modules:
+            continue
+        for fn in ctx.prog.module(mn).funcs.values():
+            for x in walk_no_defs(fn.node):
+                if not isinstance(x, ast.Call):
+                    continue
+                r = ctx.prog.callee(fn, x)
+                if not r or r[1] not in parsers:
+                    continue
+                pf, dflt = parsers[r[1]]
+                n_calls += 1
+                ps = [p for p in pf.params if p != "self"]
+                given = dflt is not None and ((dflt in ps and len(x.args) > ps.index(dflt)) or any(k.arg == dflt for k in x.keywords))
+                if given:
+                    a = x.args[ps.index(dflt)] if len(x.args) > ps.index(dflt) else kwarg(x, dflt)
+                    given = not (isinstance(a, ast.Constant) and a.value is None)
+                ctx.check(given, "C01.CLOCK", ctx.okey(f"{fn.qual}/parse-has-no-wall-clock-fallback"), fn.loc(x), f"`{src(x)[:50]}` passes the fallback instant",
+                          f"`{src(x)[:50]}` calls {pf.name} without its default: when the text cannot be read (RFC 3339 lower case `t`/`z`, a trailing blank, an ordinal date) the helper returns "
+                          "datetime.now() - with a logical clock given, the recency window and the recency score then follow the wall clock and two replays log different scores")
+    ctx.floor("C01.CLOCK", "calls of those parsers", n_calls, 4)
+    # (b) try / except around the clock parse
+    n_try = 0
+    for mn in CLOCK_PARSE_MODULES:
+        if mn not in ctx.prog.modules:
+            continue
+        for fn in ctx.prog.module(mn).funcs.values():
+            fills = [x for x in walk_no_defs(fn.node) if isinstance(x, ast.If) and isinstance(x.test, ast.Compare) and isinstance(x.test.ops[0], ast.Is) and isinstance(x.test.left, ast.Name)
+                     and isinstance(x.test.comparators[0], ast.Constant) and x.test.comparators[0].value is None
+                     and any(isinstance(st, ast.Assign) and _is_clock(st.value) and any(isinstance(t, ast.Name) and t.id == x.test.left.id for t in st.targets) for st in x.body)]
+            for f in fills:
+                v = f.test.left.id
+                for t in [x for x in walk_no_defs(fn.node) if isinstance(x, ast.Try)]:
+                    if not any(isinstance(st, ast.Assign) and any(isinstance(tt, ast.Name) and tt.id == v for tt in st.targets) for st in t.body):
+                        continue
+                    n_try += 1
+                    resets = [st for h in t.handlers for st in h.body if isinstance(st, ast.Assign) and any(isinstance(tt, ast.Name) and tt.id == v for tt in st.targets)
+                              and isinstance(st.value, ast.Constant) and st.value.value is None]
+                    silent = [h for h in t.handlers if not any(isinstance(st, (ast.Assign, ast.Raise, ast.Return)) for st in h.body)]
+                    ctx.check(not resets and not silent, "C01.CLOCK", ctx.okey(f"{fn.qual}/unreadable-clock-is-not-the-wall-clock"), fn.loc(t),
+                              f"a clock text that cannot be parsed leaves `{v}` at a fixed instant", f"when the given clock text cannot be parsed the handler leaves `{v}` None and the `{v} is None` "
+                              "fill-in then takes datetime.now(): the logical clock silently becomes the wall clock")
+    ctx.floor("C01.CLOCK", "try-wrapped clock parses followed by a wall-clock fill-in", n_try, 1)
+
+
 def rule_process_state(ctx) -> None:
     """a fresh process and a warm one (earlier turns, another engine state) must write the same bytes: no function on the
     canonical path keeps results in an object that outlives the call by accident - a mutable default argument the body edits
@@ -806,6 +872,7 @@ def run(ctx) -> None:
     _REPORTED.clear()
     rule_process_state(ctx)
     rule_cache_clock(ctx)
+    rule_clock_fallback(ctx)
     rule_time(ctx)
     rule_host_tz(ctx)
     rule_hist(ctx)
